@@ -253,9 +253,12 @@ package stdlibspec
 //@   ensures (result0 != nil) != (result1 != nil)
 //@   ensures result0 != nil ==> result0.Header != nil && fresh(result0) && fresh(result0.Header)
 // DumpResponse(resp, true) drains resp.Body and replaces it with an in-memory copy.
+// Ghost bodyReadFailed: the last attempt to read a response body completely failed.
+//@ ghost var bodyReadFailed bool
 //@ extern net/http/httputil.DumpResponse(resp, body)
 //@   requires resp != nil
-//@   assigns resp.Body
+//@   assigns resp.Body, bodyReadFailed
+//@   ensures bodyReadFailed == (result1 != nil)
 //@   ensures result1 != nil ==> len(result0) == 0
 //@ extern (*bytes.Buffer).Write(b, p)
 //@   assigns cell(b)
